@@ -3,6 +3,7 @@ package rules
 import (
 	"go/token"
 	"go/types"
+	"strings"
 
 	"golang.org/x/tools/go/ssa"
 
@@ -12,13 +13,13 @@ import (
 func init() { All["C05"] = c05 }
 
 type chanSlots struct {
-	ch                                                             *types.Named
-	deliver, deliverLit, newResp, onReady, checkKey, setCurrent    *ssa.Function
-	setNext, propose, getOrInit, onRekey, onHandshake, newInit     *ssa.Function
-	sessDeliver, sessIsReady, newSession, verifyAuthClaim          *ssa.Function
-	remoteKey, sessions, ready, lastReceived, remoteTS, paramsF    *types.Var
-	acceptKey, entrySession, rekeyTimer, handshakeTimer            *types.Var
-	equalKeys, isZero, timerReset                                  *ssa.Function
+	ch                                                          *types.Named
+	deliver, deliverLit, newResp, onReady, checkKey, setCurrent *ssa.Function
+	setNext, propose, getOrInit, onRekey, onHandshake, newInit  *ssa.Function
+	sessDeliver, sessIsReady, newSession, verifyAuthClaim       *ssa.Function
+	remoteKey, sessions, ready, lastReceived, remoteTS, paramsF *types.Var
+	acceptKey, entrySession, rekeyTimer, handshakeTimer         *types.Var
+	equalKeys, isZero, timerReset                               *ssa.Function
 }
 
 func resolveChan(r *core.Report) *chanSlots {
@@ -63,9 +64,11 @@ func resolveChan(r *core.Report) *chanSlots {
 
 // keyJudgementCut returns the cut of edges on which the key judgement of fn
 // is known to have succeeded, in any of the accepted forms:
-//   checkKey(k) == nil;  EqualPublicKeys(&c.remoteKey, k) true (reached only
-//   under !remoteKey.IsZero());  params.AcceptKey(k) true (reached only under
-//   remoteKey.IsZero()).
+//
+//	checkKey(k) == nil;  EqualPublicKeys(&c.remoteKey, k) true (reached only
+//	under !remoteKey.IsZero());  params.AcceptKey(k) true (reached only under
+//	remoteKey.IsZero()).
+//
 // ok=false when a primitive judgement is present but not under its zero-ness
 // precondition.
 func (c *chanSlots) keyJudgementCut(fn *ssa.Function) (core.CutFunc, int, bool) {
@@ -150,31 +153,12 @@ func c05(r *core.Report) {
 
 	// ---- C05-CHECKKEY-SHAPE
 	r.Rule("C05-CHECKKEY-SHAPE", "checkKey returns nil only via (known ∧ equal) or (unknown ∧ AcceptKey)", 1)
-	{
-		fn := c.checkKey
-		cut, n, pre := c.keyJudgementCut(fn)
-		ok := n >= 2 && pre
-		reached := core.Reach(fn, nil, cut, nil)
-		for _, ret := range core.Returns(fn) {
-			if !reached[ret] {
-				continue
-			}
-			for _, v := range core.ReturnValues(ret, 0) {
-				if core.IsNilConst(v) {
-					ok = false
-				}
-			}
-		}
-		// the judged key is the parameter
-		for _, ci := range core.Calls(fn, func(ci ssa.CallInstruction) bool {
-			return core.IsCallToFn(ci.Common(), c.equalKeys)
-		}) {
-			if ci.Common().Args[1] != ssa.Value(fn.Params[1]) {
-				ok = false
-			}
-		}
-		r.Check(ok, "C05-CHECKKEY-SHAPE", core.FnName(fn), p.Pos(fn.Pos()), "nil is returned only when the known key equals the offered one, or no key is known and AcceptKey accepted it", "checkKey can accept a key that is neither equal to the established key nor accepted by the predicate")
-	}
+	ruleCheckKeyShape(r, c, "C05-CHECKKEY-SHAPE")
+	// ---- C05-KEY-WRITERS: "same key forever": the pinned key is written by onReadySession only (there
+	// under the judgement, PROMOTE-CHECK): any other store — a reset to zero after an idle expiry, a
+	// copy from elsewhere — makes checkKey fall back to AcceptKey and lets a different acceptable key in
+	r.Rule("C05-KEY-WRITERS", "Channel.remoteKey is stored only by onReadySession", 1)
+	ruleKeyWriters(r, c, "C05-KEY-WRITERS")
 
 	// ---- C05-PROMOTE-CHECK / NO-DISTURB
 	r.Rule("C05-PROMOTE-CHECK", "onReadySession promotes and records a key only after the key judgement succeeded", 2)
@@ -446,4 +430,69 @@ func isZeroStruct(v ssa.Value) bool {
 		}
 	}
 	return true
+}
+
+// ruleCheckKeyShape (shared by C05 and C02): checkKey returns nil only when the known key equals the
+// offered one, or no key is known and AcceptKey accepted it.
+func ruleCheckKeyShape(r *core.Report, c *chanSlots, ruleID string) {
+	p := r.P
+	fn := c.checkKey
+	cut, n, pre := c.keyJudgementCut(fn)
+	ok := n >= 2 && pre
+	reached := core.Reach(fn, nil, cut, nil)
+	for _, ret := range core.Returns(fn) {
+		if !reached[ret] {
+			continue
+		}
+		for _, v := range core.ReturnValues(ret, 0) {
+			if core.IsNilConst(v) {
+				ok = false
+			}
+		}
+	}
+	// the judged key is the parameter
+	for _, ci := range core.Calls(fn, func(ci ssa.CallInstruction) bool {
+		return core.IsCallToFn(ci.Common(), c.equalKeys)
+	}) {
+		if ci.Common().Args[1] != ssa.Value(fn.Params[1]) {
+			ok = false
+		}
+	}
+	r.Check(ok, ruleID, core.FnName(fn), p.Pos(fn.Pos()), "nil is returned only when the known key equals the offered one, or no key is known and AcceptKey accepted it", "checkKey can accept a key that is neither equal to the established key nor accepted by the predicate (for an established channel: a different key that AcceptKey admits)")
+}
+
+// ruleKeyWriters (shared by C05 and C02): the channel's pinned remote key has one writer.
+func ruleKeyWriters(r *core.Report, c *chanSlots, ruleID string) {
+	p := r.P
+	n := 0
+	for _, fn := range p.ModFuncs {
+		if strings.Contains(fn.String(), "_test") {
+			continue
+		}
+		for _, st := range core.StoresToField(fn, c.remoteKey) {
+			n++
+			if fn == c.onReady {
+				r.OK(ruleID, core.FnName(fn)+" store remoteKey", p.Pos(st.Pos()), "written by onReadySession (under the key judgement, PROMOTE-CHECK)")
+				continue
+			}
+			r.Violation(ruleID, core.FnName(fn)+" store remoteKey", p.Pos(st.Pos()), "the channel's pinned remote key is overwritten outside onReadySession: once it is reset (or replaced) checkKey treats the channel as never established and accepts any key AcceptKey admits, so the channel changes peer after e.g. an idle expiry")
+		}
+		// partial writes through the address (fields of the key struct) or passing its address to a callee
+		for _, fa := range core.FieldAddrsOf(fn, c.remoteKey) {
+			for _, ref := range *fa.Referrers() {
+				switch x := ref.(type) {
+				case *ssa.FieldAddr:
+					for _, r2 := range *x.Referrers() {
+						if s2, ok := r2.(*ssa.Store); ok && s2.Addr == ssa.Value(x) && fn != c.onReady {
+							n++
+							r.Violation(ruleID, core.FnName(fn)+" store remoteKey field", p.Pos(s2.Pos()), "a component of the pinned remote key is overwritten outside onReadySession")
+						}
+					}
+				}
+			}
+		}
+	}
+	if n == 0 {
+		r.Fail("%s: no store to Channel.remoteKey found (anchor stale)", ruleID)
+	}
 }
